@@ -405,6 +405,7 @@ fn render_fn_pass(ctx: &mut Ctx, unit: &Unit, fs: &FnSpec, found: &FoundFn, in_t
     }
     body = unwrap_it_labels(body);
     for (a, _) in &fs.at { if !n.used_anchors.contains(a) { ctx.problems.push(format!("LOST-ANCHOR `{}` in {} (available: {})", a, display, n.avail_anchors.iter().cloned().collect::<Vec<_>>().join(" "))); } }
+    for (k, _) in &fs.letsplit_named { if !n.used_anchors.contains(&format!("letsplit {}", k)) { ctx.problems.push(format!("LOST-ANCHOR @letsplit {} in {}", k, display)); } }
     for e in &n.errors { ctx.problems.push(format!("UNSUPPORTED {}", e)); }
     ctx.canaries.extend(n.canaries.iter().cloned());
     let meta = json!({
